@@ -16,7 +16,7 @@ CONSTANTS NTok, MaxL, MaxR, Mode, AllowEmpty,
           Sabotage      \* "none"; "skip-row-id": an empty left record does not advance the row id (non-vacuity)
 
 Rows(n) == UNION {[1..k -> SUBSET (1..NTok)] : k \in 0..n}
-Ths == IF Mode = "oc" THEN {<<1, 2>>, <<2, 3>>, <<1, 1>>} ELSE {<<1, 1>>, <<2, 1>>}
+Ths == IF Mode = "oc" THEN {<<1, 2>>, <<2, 3>>, <<1, 1>>} ELSE {<<1, 1>>, <<2, 1>>, <<3, 2>>}
 
 VARIABLES lt, rt, thr, op, pc, li, rowid, ri, idx, sizes, empties, out
 vars == <<lt, rt, thr, op, pc, li, rowid, ri, idx, sizes, empties, out>>
@@ -51,7 +51,7 @@ ProbeRow ==
                    ov[l] > 0 /\
                    IF Mode = "oc"
                    THEN CmpInt(op, ov[l] * thr[2], thr[1] * Min2(m, sizes[l + 1]))
-                   ELSE CmpInt(op, ov[l], thr[1])}}
+                   ELSE CmpInt(op, ov[l] * thr[2], thr[1])}}
   /\ ri' = ri + 1
   /\ UNCHANGED <<lt, rt, thr, op, pc, li, rowid, idx, sizes, empties>>
 Finish == /\ pc = "probe" /\ ri > Len(rt) /\ pc' = "done"
@@ -65,6 +65,6 @@ Wanted ==
      IF x = {} /\ y = {} THEN Mode = "oc" /\ AllowEmpty
      ELSE IF x = {} \/ y = {} THEN FALSE
      ELSE IF Mode = "oc" THEN CmpInt(op, o * thr[2], thr[1] * Min2(Cardinality(x), Cardinality(y)))
-     ELSE o > 0 /\ CmpInt(op, o, thr[1])}
+     ELSE o > 0 /\ CmpInt(op, o * thr[2], thr[1])}
 Exact == pc = "done" => out = Wanted
 =============================================================================
